@@ -438,6 +438,18 @@ func (w *World) Publish() {
 	for _, u := range w.RootInQE.X.CRLDistributionPoints {
 		s.ByURL[u] = &Endpoint{Body: w.RootCrlDER}
 	}
+	// a real response carries unrelated headers as well
+	for _, ep := range []*Endpoint{s.QE, s.PckCrl[w.CAID]} {
+		ep.Hdr["Content-Type"] = []string{"application/json"}
+		ep.Hdr["Request-Id"] = []string{"a1b2c3d4e5f6"}
+	}
+	for _, k := range []string{strings.ToLower(hex.EncodeToString(w.P.Ext.FMSPC[:]))} {
+		s.Tcb[k].Hdr["Content-Type"] = []string{"application/json"}
+		s.Tcb[k].Hdr["Warning"] = []string{}
+	}
+	for _, u := range w.RootInQE.X.CRLDistributionPoints {
+		s.ByURL[u].Hdr = map[string][]string{"Content-Type": {"application/pkix-crl"}}
+	}
 	w.PCS = s
 }
 
